@@ -9,8 +9,8 @@ Open Scope N_scope.
 (* different basic kinds (int vs int64, string vs int, ...) have no rule: TypeMismatch, nothing emitted *)
 Theorem C03_basic_kinds_must_agree : forall e hm conf k1 k2, k1 <> k2 -> first_rule e hm conf (TBasic k1) (TBasic k2) = None.
 Proof. exact basic_kind_mismatch. Qed.
-Theorem C03_basic_kind_mismatch_fails : forall e cc out FT ext sm f ctx lv k1 k2 st, k1 <> k2 ->
-  build_no_lookup e cc out FT ext sm (S f) ctx lv (TBasic k1) (TBasic k2) st = GDiag D_TYPE_MISMATCH.
+Theorem C03_basic_kind_mismatch_fails : forall e cc out exc FT ext sm f ctx lv k1 k2 st, k1 <> k2 ->
+  build_no_lookup e cc out exc FT ext sm (S f) ctx lv (TBasic k1) (TBasic k2) st = GDiag D_TYPE_MISMATCH.
 Proof. exact gen_basic_kind_mismatch. Qed.
 (* ... and equal kinds are accepted *)
 Theorem C03_basic_same_kind_accepted : forall e hm conf k,
@@ -22,9 +22,9 @@ Theorem C03_pointer_to_value_needs_flag : forall e hm conf s t,
   cc_UseZeroValueOnPointerInconsistency conf = false -> (forall id, t <> TNamed id) -> f_Pointer e t = false ->
   first_rule e hm conf (TPtr s) t = None.
 Proof. exact ptr_to_value_needs_flag. Qed.
-Theorem C03_pointer_to_value_fails_with_hint : forall e cc out FT ext sm f ctx lv s t st,
+Theorem C03_pointer_to_value_fails_with_hint : forall e cc out exc FT ext sm f ctx lv s t st,
   cc_UseZeroValueOnPointerInconsistency (bc_conf ctx) = false -> (forall id, t <> TNamed id) -> f_Pointer e t = false ->
-  build_no_lookup e cc out FT ext sm (S f) ctx lv (TPtr s) t st = GDiag D_POINTER_MISMATCH.
+  build_no_lookup e cc out exc FT ext sm (S f) ctx lv (TPtr s) t st = GDiag D_POINTER_MISMATCH.
 Proof. exact gen_ptr_to_value_without_flag. Qed.
 
 (* shapes without a rule *)
@@ -45,10 +45,10 @@ Theorem C03_interface_func_chan : forall e hm conf k i t,
 Proof. exact other_kinds_rule. Qed.
 
 (* no matching rule => a diagnostic of the documented class, never a plan *)
-Theorem C03_no_rule_no_output : forall e cc out FT ext sm f ctx lv s t st,
+Theorem C03_no_rule_no_output : forall e cc out exc FT ext sm f ctx lv s t st,
   f_Struct e s && f_Struct e t = false ->
   first_rule e (has_method FT ext (b_tab st)) (bc_conf ctx) s t = None ->
-  build_no_lookup e cc out FT ext sm (S f) ctx lv s t st =
+  build_no_lookup e cc out exc FT ext sm (S f) ctx lv s t st =
   GDiag (if f_Pointer e s && negb (f_Pointer e t) then D_POINTER_MISMATCH else D_TYPE_MISMATCH).
 Proof. exact no_rule_is_mismatch. Qed.
 
